@@ -279,6 +279,13 @@ def suite_ctl(mc_results, tier, seed):
         ops.append({"k": "truncate", "v": rng.randint(0, 2 * cap)})
         ops.append(AB(rng.choice([1, 8, 64])))
         drivers.append({"id": "trunc:%d" % i, "cfg": cfg, "ops": ops})
+    # capacities that cross page boundaries: grow inside the mapped page(s), allocate beyond the original length, grow beyond
+    # the pages, shrink back (the anonymous map keeps whole pages; Vec and file do not)
+    for i, be in enumerate(["anon", "vec", "file", "anon", "file", "vec"]):
+        cfg = cfg_for("unify" if (be == "file" or i % 2) else "plain", "opt", be, cap=1024, flavors=("unsync",))
+        ops = [AB(600), {"k": "truncate", "v": 4000}, AB(2500), {"k": "truncate", "v": 2 * 4096 + 100}, AB(4000),
+               {"k": "drop", "h": 2}, {"k": "truncate", "v": 4097}, {"k": "truncate", "v": 3 * 4096}, AB(3000), {"k": "truncate", "v": 0}, AB(8)]
+        drivers.append({"id": "trunc-pages:%d" % i, "cfg": cfg, "ops": ops})
     # the configured maximum alignment survives truncate (the new buffer / mapping is as aligned as the old one)
     for i, (be, v) in enumerate([(be, v) for be in ["vec", "anon", "file"] for v in [0, 300, 700, 1500, 5000]]):
         cfg = cfg_for("unify" if be == "file" else "plain", "opt", be, cap=600, flavors=("unsync",))
@@ -386,10 +393,11 @@ def suite_sizes(tier, seed):
                                   u32 - 16, u32 - 8, u32 - 7, u32 - 1, u32} - {-1})
                 anchors = [x for x in anchors if 0 <= x <= u32]
                 for sz in anchors:
-                    for (k, s, a) in [("ab", 0, 1), ("aa", 8, 8), ("aa", 16, 16), ("aa", 1, 1)]:
+                    for (k, s, a) in [("ab", 0, 1), ("aa", 8, 8), ("aa", 16, 16), ("aa", 1, 1), ("aa", 3, 1), ("aa", 0, 8)]:
                         be = backends[n % len(backends)]
                         n += 1
-                        op = {"k": k, "n": sz, "o": False} if k == "ab" else {"k": k, "s": s, "a": a, "n": sz, "o": False}
+                        owned = n % 3 == 0     # the *_owned entry points have their own wrappers
+                        op = {"k": k, "n": sz, "o": owned} if k == "ab" else {"k": k, "s": s, "a": a, "n": sz, "o": owned}
                         ops = list(shape) + [op, AB(8), {"k": "at", "s": 8, "a": 8, "o": False}]
                         cfg = cfg_for(layout, kind, be, cap=cap)
                         # the retry budget of the slow path (Options::with_maximum_retries, any u8): a failing request is
@@ -441,6 +449,8 @@ def suite_reopen(tier, seed, mc_results=()):
         # the arena may live at an offset into its file (page aligned or not): the file is judged from that offset on
         # (a multiple of the largest alignment in the type menu: an offset that is not misaligns typed allocations, DESIGN section 12)
         cfg["offset"] = [0, 0, 4096, 192][i % 4]
+        # ... and may be created / reopened through the *_with_path_builder constructors
+        cfg["pb"] = i % 3 == 1
         cap = cfg["cap"]
         ops = [o for o in pre["ops"]]
         cycles = rng.randint(1, 3)
@@ -511,6 +521,33 @@ def suite_fit(mc_results, tier, seed):
     return drivers
 
 
+def suite_minseg(tier, seed):
+    """Extreme minimum segment sizes ("never recycle": u32::MAX and just below; and 0 / 1), set in the options or at run time,
+    before and after segments exist: releases that are not on top, slow-path requests that would split, discard_freelist."""
+    drivers = []
+    U = (1 << 32) - 1
+    n = 0
+    for layout in ["plain", "unify"]:
+        backends = LAYOUTS[layout][2]
+        for kind in ["opt", "pes"]:
+            for mv in [U, U - 7, U - 13, U - 14, 1 << 31, 0, 1]:
+                for when in ["option", "before", "after"]:
+                    n += 1
+                    cfg = cfg_for(layout, kind, backends[n % len(backends)], cap=160 + (31 if layout == "unify" else 0))
+                    setop = {"k": "setmin", "v": min(mv, 1 << 30)}
+                    if mv > (1 << 30):
+                        setop["vx"] = str(mv)
+                    if when == "option" and mv <= (1 << 30):
+                        cfg["minseg"] = mv
+                    pre = [] if when != "before" else [setop]
+                    mid = [] if when != "after" else [setop]
+                    ops = pre + [AB(40), AB(9), AB(48), AB(8), AB(30)] + [{"k": "drop", "h": 1}] + mid + [{"k": "drop", "h": 3}] + \
+                          ([setop] if when == "option" and mv > (1 << 30) else []) + \
+                          [AB(16), {"k": "at", "s": 8, "a": 8, "o": False}, {"k": "drop", "h": 2}, {"k": "discard"}, AB(24), AB(8)]
+                    drivers.append({"id": "minseg:%s:%s:%d:%s" % (layout, kind, mv, when), "cfg": cfg, "ops": ops})
+    return drivers
+
+
 def suite_clone(mc_results, tier, seed):
     """A second arena value (Clone) alive across truncate / clear / allocations: every history of the model with the clone
     calls in the menu (made, asked for capacity()/remaining()/allocated(), allocated through, dropped)."""
@@ -527,6 +564,7 @@ def suite_clone(mc_results, tier, seed):
 
 
 SUITES = {
+    "minseg": lambda mc, tier, seed: suite_minseg(tier, seed),
     "fit": lambda mc, tier, seed: suite_fit(mc, tier, seed),
     "clone": lambda mc, tier, seed: suite_clone(mc, tier, seed),
     "reopen": lambda mc, tier, seed: suite_reopen(tier, seed, mc),
